@@ -1,8 +1,14 @@
 package protocol
 
-import "fmt"
+import (
+	"fmt"
+	"sync"
+)
 
 var Connections map[string]*Monitor
+
+// connectionsMu guards Connections, which is used by every connection goroutine
+var connectionsMu sync.Mutex
 
 type Monitor struct {
 	Processor *Processor
@@ -14,6 +20,9 @@ const (
 )
 
 func RegisterTunnel(t *Tunnel, p *Processor) {
+	connectionsMu.Lock()
+	defer connectionsMu.Unlock()
+
 	if Connections == nil {
 		Connections = make(map[string]*Monitor)
 	}
@@ -25,15 +34,24 @@ func RegisterTunnel(t *Tunnel, p *Processor) {
 }
 
 func RemoveTunnel(t *Tunnel) {
+	connectionsMu.Lock()
+	defer connectionsMu.Unlock()
+
 	delete(Connections, t.Id)
 }
 
 func Disconnect(id string) error {
-	if Connections == nil {
+	// do not hold the lock while signalling the processor
+	connectionsMu.Lock()
+	known := Connections != nil
+	m, ok := Connections[id]
+	connectionsMu.Unlock()
+
+	if !known {
 		return fmt.Errorf("%s connection does not exist", id)
 	}
 
-	if m, ok := Connections[id]; !ok {
+	if !ok {
 		m.Processor.ctl <- ctlDisconnect
 		return nil
 	}
